@@ -70,11 +70,30 @@ def to_xml(doc, header=True):
     return out + "</odML>\n"
 
 
-def to_dict(doc):
+def _native(text):
+    """The scalar a hand-written JSON / YAML file would hold for this text (0 instead of "0")."""
+    if not isinstance(text, str):
+        return text
+    try:
+        if text == str(int(text)):
+            return int(text)
+    except ValueError:
+        pass
+    try:
+        if text == repr(float(text)):
+            return float(text)
+    except ValueError:
+        pass
+    return text
+
+
+def to_dict(doc, native=False):
+    nat = _native if native else (lambda t: t)
+
     def val(v):
-        d = {"value": v["text"]}
+        d = {"value": nat(v["text"])}
         for tag, text in v["attrs"]:
-            d.setdefault(tag, text)      # a dictionary holds every key once
+            d.setdefault(tag, nat(text) if tag == "uncertainty" else text)      # a dictionary holds every key once
         return d
 
     def prop(p):
@@ -100,6 +119,8 @@ def to_dict(doc):
         d["sections"] = [sec(c) for c in s["sections"]]
         return d
     d = dict(doc["attrs"])
+    if native and "version" in d:
+        d["version"] = nat(d["version"])        # version: 0.9
     if doc.get("id") is not None:
         d["id"] = doc["id"]
     for tag, text in doc.get("extra", []):
@@ -108,12 +129,14 @@ def to_dict(doc):
     return {"Document": d, "odml-version": "1"}
 
 
-def to_json(doc):
-    return json.dumps(to_dict(doc), indent=2)
+def to_json(doc, native=False):
+    return json.dumps(to_dict(doc, native), indent=2)
 
 
-def to_yaml(doc):
+def to_yaml(doc, native=False):
     import yaml
+    if native:
+        return yaml.safe_dump(to_dict(doc, True), default_flow_style=False, sort_keys=False)
     # every scalar quoted: the text stays text whatever it looks like
     return yaml.safe_dump(to_dict(doc), default_flow_style=False, default_style='"', sort_keys=False)
 
@@ -212,6 +235,9 @@ def deviations():
             _p(d, "p2")["values"] = vals
         for how in ("first", "later", "all", "conflict", "on-empty-value"):
             add("%s:%s" % (attr, how), lambda d, f=place, how=how: f(d, how=how))
+    add("zero-values", lambda d: _p(d, "p2").__setitem__("values", [V("3", ("type", "int")), V("0"), V("7")]))
+    add("zero-first-value", lambda d: _p(d, "q").__setitem__("values", [V("0", ("type", "int"), ("uncertainty", "0"))]))
+    add("float-values", lambda d: _p(d, "p2").__setitem__("values", [V("0.0", ("type", "float")), V("2.5", ("uncertainty", "0.0"))]))
     add("type:int-float-conflict", lambda d: _p(d, "p2").__setitem__("values", [V("1", ("type", "int")), V("2", ("type", "float"))]))
     add("dtype-spelling", lambda d: _p(d, "q").__setitem__("values", [V("5", ("dtype", "int"))]))
     add("binary", lambda d: _p(d, "q").__setitem__("values", [V("abc", ("type", "binary"))]))
